@@ -47,6 +47,63 @@ def need_unmet(need, out, kind):
     raise ValueError(need)
 
 
+def need_reads(need):
+    """the capability dimensions a need reads: ('builtins' | 'future_keywords' | 'features', name)"""
+    v1 = [('features', 'rego_v1_import'), ('features', 'rego_v1')]
+    if need.startswith('builtin:'):
+        return [('builtins', need[8:])]
+    if need.startswith('kw:'):
+        return [('future_keywords', need[3:])] + v1
+    if need == 'rego_v1_import':
+        return v1
+    if need.startswith('obsolete:'):
+        return [('features', need[9:])]
+    if need == 'v0only':
+        return [('features', 'rego_v1')]
+    if need == 'filename':
+        return []
+    raise ValueError(need)
+
+
+BASE_KEYWORDS = ['every', 'in']      # future keywords no gate looks at: always listed in the generated files
+
+
+def capability_dimensions():
+    """every dimension some gate reads, from two sides: python's own needs table, and the names that occur in the
+    conditions of the .rego sources (tools/gen/gatedrules.py -> Gen/GatedRules.json: `notices` bodies and
+    capabilities.rego).  Sorted list of (kind, name)."""
+    dims = {d for needs in NEEDS.values() for _, nd in needs for d in need_reads(nd)}
+    try:
+        g = json.load(open(os.path.join(vlib.COQ, 'theories', 'Gen', 'GatedRules.json')))
+        dims |= {(k, n) for k, ns in g['dims'].items() for n in ns}
+    except (OSError, ValueError, KeyError):
+        pass
+    return sorted(dims)
+
+
+def generated_targets(ctx, dims):
+    """one capabilities FILE per subset of the dimensions (all of them; a seeded sample with the corner cases beyond 2^9)"""
+    n = len(dims)
+    if n <= 9:
+        masks = list(range(1 << n))
+    else:
+        masks = sorted({0, (1 << n) - 1} | {1 << i for i in range(n)} | {((1 << n) - 1) ^ (1 << i) for i in range(n)}
+                       | {ctx.rng.below(1 << n) for _ in range(480)})
+    out = []
+    for m in masks:
+        on = [d for i, d in enumerate(dims) if m & (1 << i)]
+        out.append({'engine': '', 'version': '', 'file': False, 'minus': None, 'plus': None, 'plus_bare': None, 'plus_readme': None,
+                    'gen': {'future_keywords': BASE_KEYWORDS + [x for k, x in on if k == 'future_keywords'],
+                            'features': [x for k, x in on if k == 'features'],
+                            'without_builtins': [x for k, x in dims if k == 'builtins' and (k, x) not in on]}})
+    return out, n <= 9
+
+
+def dims_on(out, dims):
+    have = {'builtins': out['builtins'] or [], 'future_keywords': out['future_keywords'] or [], 'features': out['features'] or []}
+    return frozenset(d for d in dims if d[1] in have[d[0]])
+
+
 def cstr(x):
     if isinstance(x, str) and all(32 <= ord(ch) < 127 and ch != '"' for ch in x):
         return '(b "%s"%%string)' % x
@@ -146,7 +203,14 @@ def run(ctx):
     else:
         corpus = [json.load(open(f))['case'] for f in sorted(glob.glob(os.path.join(vlib.VERIF, 'corpus', 'C19', '*.json')))]
     json.dump(corpus, open(cases_file, 'w'))
-    rc, log = vlib.run([h, outp, tier, vlib.REPO, wd, cases_file], env=dict(os.environ, VERIF_SEED=str(ctx.seed)), timeout=3000)
+    # generated capabilities files: every subset of every dimension a gate reads (keywords and features cannot be
+    # varied by embedded versions or plus/minus); v0 and v1 trigger policies in one Lint (quick), all file sets (thorough)
+    dims = capability_dimensions()
+    gen_targets, gen_all = ([], True) if tier == 'replay' else generated_targets(ctx, dims)
+    gen_file = os.path.join(ctx.tmp, 'generated.json')
+    json.dump([{'set': s_, 'in': {'target': t, 'files': [], 'disabled': None}} for t in gen_targets
+               for s_ in (['mixed'] if ctx.quick() else ['mixed', 'v0x1', 'v0x3', 'v1x1', 'v1x3', 'stdin'])], open(gen_file, 'w'))
+    rc, log = vlib.run([h, outp, tier, vlib.REPO, wd, cases_file, gen_file], env=dict(os.environ, VERIF_SEED=str(ctx.seed)), timeout=3000)
     if rc != 0:
         raise RuntimeError('c19 harness failed: ' + log[-3000:])
     phase('harness_run')
@@ -175,7 +239,7 @@ def run(ctx):
     base_of = {}
     for r in ok:
         t = r['in']['target']
-        if not t.get('minus') and not t.get('plus') and not t.get('plus_bare') and not t.get('plus_readme'):
+        if not t.get('minus') and not t.get('plus') and not t.get('plus_bare') and not t.get('plus_readme') and not t.get('gen'):
             base_of[tkey({'engine': t['engine'], 'version': t['version'], 'file': t['file']})] = r['out']['builtins'] or []
     pcases, pseen = [], set()
     for r in ok:
@@ -183,7 +247,7 @@ def run(ctx):
         if not (t.get('minus') or t.get('plus') or t.get('plus_bare') or t.get('plus_readme')):
             continue
         bk = tkey({'engine': t['engine'], 'version': t['version'], 'file': t['file']})
-        if bk not in base_of:
+        if bk not in base_of or t.get('gen'):
             continue
         key = json.dumps([bk, t.get('minus'), t.get('plus'), t.get('plus_bare'), t.get('plus_readme')], sort_keys=True)
         if key in pseen:
@@ -212,6 +276,13 @@ def run(ctx):
           'Definition P1 := Eval vm_compute in failing pcase_agrees 0 p_cases.',
           'Definition P2 := Eval vm_compute in failing pcase_meets_spec 0 p_cases.',
           'Print F1. Print F2. Print L1. Print L2. Print P1. Print P2.']
+    # the generated files, as loaded, realise every on/off assignment of the dimensions the model's needs table reads
+    # (Model/Notices.v dims_covered; Props/C19.v c19_covering_targets_suffice says why that is enough)
+    gen_ok = [r for r in ok if r['in']['target'].get('gen')]
+    gen_caps = sorted({c_caps(r['out']) for r in gen_ok})
+    if gen_targets:
+        v += ['Definition D1 := Eval vm_compute in (if dims_covered needs_table %s then [] else [0%%nat]).' % clist(gen_caps), 'Print D1.',
+              'Definition D2 := Eval vm_compute in (if dims_covered needs_table %s then [] else [0%%nat]).' % clist(gen_caps[1:]), 'Print D2.']
     # self-test of the glue: a perturbed observation must be flagged
     if lint_ok:
         pr = json.loads(json.dumps(lint_ok[0]))
@@ -224,6 +295,9 @@ def run(ctx):
     phase('coq_eval')
     g = lambda m: vlib.parse_nat_list(cout, m) or []
     f1, f2, l1, l2, p1, p2 = g('F1'), g('F2'), g('L1'), g('L2'), g('P1'), g('P2')
+    d1 = g('D1') if gen_targets and gen_all else []
+    if gen_targets and gen_all and g('D2') != [0]:
+        raise RuntimeError('self-test failed: Model.Notices.dims_covered accepts the generated targets with one of them left out')
     m_self = re.search(r'S1\s*=\s*\(([^)]*)\)', cout, re.S)
     if lint_ok and (not m_self or re.findall(r'\d+', m_self.group(1)) != ['0', '0']):
         raise RuntimeError('self-test failed: a perturbed rules_skipped was not flagged by Check.C19Check')
@@ -236,7 +310,7 @@ def run(ctx):
         bad.append((r, 'lint-failed', r['out']['lint_err']))
     baseline = {}  # rule -> kind -> count of the rule body under the default target
     for r in ok:
-        if r['in']['target']['engine'] == '' and not any(r['in']['target'].get(k) for k in ('minus', 'plus', 'plus_bare', 'plus_readme')):
+        if r['in']['target']['engine'] == '' and not any(r['in']['target'].get(k) for k in ('minus', 'plus', 'plus_bare', 'plus_readme', 'gen')):
             for kind in KINDS:
                 for k, n in r['out']['fn'][kind]['reports'].items():
                     baseline.setdefault(k, {})[kind] = n
@@ -279,6 +353,37 @@ def run(ctx):
                     if rule not in never_fires and kind != 'stdin' and baseline.get(rule, {}).get(kind, 0) and want == 0 \
                             and rule != 'imports/use-rego-v1':
                         bad.append((r, 'rule-body-quiet-on-trigger', {'rule': rule, 'file': f}))
+    # each gate follows ITS OWN need and no other: over the generated files, the dimensions whose flip (everything else
+    # equal) changes whether a rule is listed must be exactly the dimensions its need reads
+    by_dims = {}
+    for r in gen_ok:
+        by_dims.setdefault(dims_on(r['out'], dims), r)
+    dependence = {}
+
+    def listed_fn(r, kind, rule, sev):
+        c, t = rule.split('/', 1)
+        return any(n['category'] == c and n['title'] == t and n['severity'] == sev for n in r['out']['fn'][kind]['notices'])
+    for rule, needs in sorted(NEEDS.items()):
+        for sev, nd in needs:
+            seen_dep, witness = set(), {}
+            for S, ra in by_dims.items():
+                for d in dims:
+                    rb = by_dims.get(S | {d})
+                    if d in S or rb is None:
+                        continue
+                    for kind in KINDS:
+                        if listed_fn(ra, kind, rule, sev) != listed_fn(rb, kind, rule, sev):
+                            seen_dep.add(d)
+                            witness.setdefault(d, (ra, rb, kind))
+            want_dep = set(need_reads(nd))
+            dependence['%s [%s]' % (rule, sev)] = {'reads': sorted('%s:%s' % d for d in seen_dep), 'need': nd}
+            if gen_ok and gen_all and seen_dep != want_dep:
+                foreign = sorted(seen_dep - want_dep)
+                ra, rb, kind = witness[foreign[0]] if foreign else (gen_ok[0], gen_ok[0], 'v1')
+                bad.append((rb, 'gate-follows-foreign-capability' if foreign else 'gate-ignores-its-capability',
+                            {'rule': rule, 'severity': sev, 'need': nd, 'need_reads': sorted(map(list, want_dep)),
+                             'listing_changes_with': sorted(map(list, seen_dep)), 'file_kind': kind,
+                             'other_target': ra['in']['target']}))
     # one file vs three copies
     by_target = {}
     for r in lint_ok:
@@ -340,6 +445,11 @@ def run(ctx):
                 r = min((pool[i] for i in lst), key=size_of)
                 vlib.violation(ctx, {'kind': 'correspondence', 'relation': rel, 'case': r['in'], 'observed': r['out'], 'n_mismatches': len(lst)}, no_input=True)
                 break
+        if d1:
+            vlib.violation(ctx, {'kind': 'coverage', 'relation': 'Model.Notices.dims_covered needs_table <capabilities loaded from the generated files>: '
+                                 'some on/off assignment of the dimensions read by the needs table is realised by no generated file '
+                                 '(capability_dimensions() in tools/props/c19.py misses a dimension, or a file does not load as written)',
+                                 'dimensions': dims, 'generated_files': len(gen_targets)}, no_input=True)
         for r in fn_errs[:1]:
             vlib.violation(ctx, {'kind': 'harness-error', 'case': r['in'], 'error': r['out']['fn_err']}, no_input=True)
     proof_gate(ctx)
@@ -351,11 +461,17 @@ def run(ctx):
         'distinct_nontrivial': len(fcases) + len({json.dumps([r['out']['builtins'], r['out']['future_keywords'], r['out']['features'],
                                                               [kind_of(f) for f in r['in']['files']]]) for r in lint_ok}),
         'rule': 'targets: no capabilities section, every OPA version of ast.LoadCapabilitiesVersions, every EOPA version embedded in /repo, a capabilities '
-                'file, and minus/plus edits over all subsets of {sprintf, strings.count, object.keys}. Function level for EVERY target x {v0 file, v1 file, '
+                'file, minus/plus edits over all subsets of {sprintf, strings.count, object.keys}, and GENERATED capabilities files '
+                '(capabilities.from.file) for every subset of the dimensions any gate reads (built-in functions, future keywords, features: '
+                'derived from the needs table and from the conditions in the .rego sources), each linted with the v0 and the v1 trigger policy. Function level for EVERY target x {v0 file, v1 file, '
                 'stdin}: real capabilities.rego predicates, notices and report of every gated rule evaluated directly. Lint level: 6 file sets '
                 '(v0 x1, v0 x3 copies, v1 x1, v1 x3, mixed, stdin); quick = one target per distinct set of capabilities the gates can see + all edits, '
                 'thorough = every target. distinct = distinct (relevant capabilities, file kind, observation) function-level cases + distinct '
                 '(relevant capabilities, file set) lint cases',
+        'capability_dimensions': ['%s:%s' % d for d in dims], 'generated_capability_files': len(gen_targets),
+        'generated_files_cover_all_subsets': bool(gen_all), 'dims_covered_checked_in_coq': bool(gen_targets and gen_all and not d1),
+        'generated_file_cases': len([r for r in recs if r['in']['target'].get('gen')]),
+        'gate_dimension_dependence_observed': dependence,
         'targets': len(targets), 'distinct_capability_signatures': len(sigs), 'fn_cases_distinct': len(fcases), 'lint_cases': len(lint_ok),
         'plus_minus_cases': len(pcases), 'one_vs_copies_pairs': copies_checked, 'rules_skipped_histogram': hist,
         'config_errors': len(cfg_errs), 'lint_errors': len(lint_errs), 'harness_errors': len(fn_errs),
